@@ -561,3 +561,46 @@ def _sf_hasattr_tmp(ev, f):
 
 
 SPECFUNCS['hasattr_tmp'] = _sf_hasattr_tmp
+
+
+def _bm(ev, obj, name):
+    return VDyn(T.Val.VF(z3.Function('bound_method', T.Val, T.S, T.I)(to_val(obj), name.z)))
+
+
+SPECFUNCS['bound_method'] = _bm
+SPECFUNCS['has_method'] = lambda ev, obj, name: VBool(z3.Function('has_method', T.Val, T.S, T.B)(to_val(obj), name.z))
+
+
+def _hookcount(ev, builder, name, i):
+    """number of table entries k < i whose field is described and whose descriptor has the method `name`
+    (defined by its unfolding at the upper end; axioms quantified over the heap arrays as for wsum)"""
+    from .values import tuple_parts
+    st = ev.st
+    arr = z3.Select(st.heap['lat'], z3.Select(st.heap['PacketClassBuilder.fields'], builder.z))
+    desc = st.heap['Field.descriptor']
+    f = z3.Function('hookcount', arr.sort(), desc.sort(), T.S, T.I, T.I)
+    key = ('hookcount',)
+    if key not in ev.eng._facts_added:
+        ev.eng._facts_added.add(key)
+        A = z3.Const('A!hc', arr.sort()); D = z3.Const('D!hc', desc.sort()); n = z3.String('n!hc'); k = z3.Int('k!hc'); k2 = z3.Int('k2!hc')
+        dk = z3.Select(D, T.Val.rval(tuple_parts(z3.Select(A, k), 2)[1][1]))
+        truthy = z3.Not(T.Val.is_VN(dk))       # (descriptors are None or objects: precondition of the contract)
+        hasm = z3.Function('has_method', T.Val, T.S, T.B)(dk, n)
+        ev.eng.extra_hyps += [
+            z3.ForAll([A, D, n], f(A, D, n, 0) == 0, patterns=[f(A, D, n, 0)]),
+            z3.ForAll([A, D, n, k], z3.Implies(k >= 0, f(A, D, n, k + 1) == f(A, D, n, k) + z3.If(z3.And(truthy, hasm), 1, 0)),
+                      patterns=[f(A, D, n, k + 1)]),
+            z3.ForAll([A, D, n, k], z3.Implies(k >= 0, z3.And(f(A, D, n, k) >= 0, f(A, D, n, k) <= k)), patterns=[f(A, D, n, k)]),
+            # monotone (derived from the unfolding by induction on the distance; stated as an axiom)
+            z3.ForAll([A, D, n, k, k2], z3.Implies(z3.And(0 <= k, k <= k2), f(A, D, n, k) <= f(A, D, n, k2)),
+                      patterns=[z3.MultiPattern(f(A, D, n, k), f(A, D, n, k2))]),
+            # ... strictly across an entry that contributes a hook (same induction)
+            z3.ForAll([A, D, n, k, k2], z3.Implies(z3.And(0 <= k, k < k2, truthy, hasm), f(A, D, n, k) < f(A, D, n, k2)),
+                      patterns=[z3.MultiPattern(f(A, D, n, k), f(A, D, n, k2))]),
+        ]
+    return VInt(f(arr, desc, name.z, ev.eng.as_int(i)[0]))
+
+
+SPECFUNCS['hookcount'] = _hookcount
+
+SPECFUNCS['isobject'] = lambda ev, v: VBool(T.Val.is_VR(to_val(v)))
